@@ -102,9 +102,20 @@ func VerifServerDial(
 
 // VerifOffice drives a connMailOffice and a sessionID.
 type VerifOffice struct {
-	ids   *sessionID
-	o     *connMailOffice
+	ids *sessionID
+	o   *connMailOffice
+
+	mu    sync.Mutex // guards boxes (the harness may drive the office from several goroutines)
 	boxes []*connMailBox
+}
+
+func (v *VerifOffice) box(h int) *connMailBox {
+	v.mu.Lock()
+	defer v.mu.Unlock()
+	if h < 0 || h >= len(v.boxes) {
+		return nil
+	}
+	return v.boxes[h]
 }
 
 // NewVerifOffice creates an empty office.
@@ -118,6 +129,8 @@ func (v *VerifOffice) Next() uint64 { return v.ids.next() }
 // NewBox is connMailOffice.newBox; it returns the handle of the box.
 func (v *VerifOffice) NewBox(id, key uint64) int {
 	b := v.o.newBox(&sessionKey{ID: id, Key: key})
+	v.mu.Lock()
+	defer v.mu.Unlock()
 	v.boxes = append(v.boxes, b)
 	return len(v.boxes) - 1
 }
@@ -146,7 +159,8 @@ func (v *VerifOffice) Deliver(id, key, tag uint64) string {
 // wait false the context is already cancelled, so it never blocks. It returns
 // ("conn", tag), ("closed", 0), ("cancelled", 0) or ("err:<text>", 0).
 func (v *VerifOffice) Receive(h int, wait bool) (string, uint64) {
-	if h < 0 || h >= len(v.boxes) {
+	b := v.box(h)
+	if b == nil {
 		return "badhandle", 0
 	}
 	ctx, cancel := context.WithCancel(context.Background())
@@ -154,7 +168,7 @@ func (v *VerifOffice) Receive(h int, wait bool) (string, uint64) {
 		cancel()
 	}
 	defer cancel()
-	conn, err := v.boxes[h].receive(ctx)
+	conn, err := b.receive(ctx)
 	if err == nil {
 		return "conn", conn.(*verifTagConn).tag
 	}
@@ -171,10 +185,10 @@ func (v *VerifOffice) Receive(h int, wait bool) (string, uint64) {
 // consuming anything: whether a connection is queued and whether the box is
 // closed.
 func (v *VerifOffice) Pending(h int) (queued bool, closed bool) {
-	if h < 0 || h >= len(v.boxes) {
+	b := v.box(h)
+	if b == nil {
 		return false, false
 	}
-	b := v.boxes[h]
 	select {
 	case <-b.closed:
 		closed = true
@@ -185,10 +199,11 @@ func (v *VerifOffice) Pending(h int) (queued bool, closed bool) {
 
 // CleanUp is connMailBox.cleanUp.
 func (v *VerifOffice) CleanUp(h int) bool {
-	if h < 0 || h >= len(v.boxes) {
+	b := v.box(h)
+	if b == nil {
 		return false
 	}
-	v.boxes[h].cleanUp()
+	b.cleanUp()
 	return true
 }
 
